@@ -425,10 +425,16 @@ pub fn c15(thorough: bool, replay: Option<String>) -> i32 {
     rep.traces += st.evaluations;
     rep.add_sub("sigma-strings", &format!("every string of length 0..{} over the 16 symbols ( ) space newline . ; \" ' \\ # a q 1 - 0 x", k), n, true, capped, st);
 
-    // token-level enumeration with separators
-    let tokens: Vec<&str> = vec!["(", ")", ".", "abc", "-12", "0x1f", "\"s t\"", "'q\\'x'", "#(", "#c", "#zz", "12345678901234567890", "\"a\\\\\\\"b\"", "()", "x"];
-    let seps: Vec<&str> = vec![" ", "\n", " ;c\n  ", ""];
-    let kt = if thorough { 5 } else { 4 };
+    // token-level enumeration with separators; a second pass adds CR LF / form-feed separators and tokens with non-ASCII bytes
+    for pass in 0..2 {
+    let mut tokens: Vec<&str> = vec!["(", ")", ".", "abc", "-12", "0x1f", "\"s t\"", "'q\\'x'", "#(", "#c", "#zz", "12345678901234567890", "\"a\\\\\\\"b\"", "()", "x"];
+    let mut seps: Vec<&str> = vec![" ", "\n", " ;c\n  ", ""];
+    let mut kt = if thorough { 5 } else { 4 };
+    if pass == 1 {
+        tokens.extend(["caf\u{e9}", "\"\u{e9}\nx\"", "\"two\nlines\""]);
+        seps.extend(["\r\n", "\u{c}", "\n\n ", " ;\u{e9}\r\n"]);
+        kt -= 1;
+    }
     let unit = (tokens.len() * seps.len()) as u64;
     let mut total = 0u64;
     let mut starts = vec![];
@@ -456,7 +462,8 @@ pub fn c15(thorough: bool, replay: Option<String>) -> i32 {
     rep.states += st.evaluations;
     rep.transitions += st.counters.get("push-calls").copied().unwrap_or(0);
     rep.traces += st.evaluations;
-    rep.add_sub("token-sequences", &format!("every sequence of 1..{} (token, separator) units over {} tokens {:?} and separators {:?}", kt, tokens.len(), tokens, seps), total, true, capped, st);
+    rep.add_sub(if pass == 0 { "token-sequences" } else { "token-sequences-extended" }, &format!("every sequence of 1..{} (token, separator) units over {} tokens {:?} and separators {:?}", kt, tokens.len(), tokens, seps), total, true, capped, st);
+    }
     rep.finish()
 }
 
